@@ -16,9 +16,10 @@ def run(ctx, rep):
     operators.rule_receiver_not_truth_tested(ctx, rep, "C08-R15")
     rep.undecided += [
         "agreement with a reference object model over histories of operations (runtime differential)",
-        "lexical `this` of arrow functions (no structural necessary condition independent of the implementation strategy)",
     ]
     optargs.rule_missing_is_undefined(ctx, rep, "C08-R12", lambda f: any(p in f.qual for p in ("_create_object_constructor", "_make_object_method", "_make_function_method", "_create_function_constructor")), "Object, Object.prototype and Function.prototype", floor=3)
     objmodel.rule_data_accessor_exclusive(ctx, rep, "C08-R13")
     objmodel.rule_nearest_definition_decides(ctx, rep, "C08-R14")
     compiler_rules.rule_resolver_side_effects(ctx, rep, "C08-R16")
+    compiler_rules.rule_computed_flag_consulted(ctx, rep, "C08-R17")
+    objmodel.rule_arrow_this_is_lexical(ctx, rep, "C08-R18")
